@@ -79,8 +79,10 @@ func (s *c26st) reset() {
 }
 
 func c26utxo(f []uint64) *account.UTXO {
+	// Change / ControlProgramIndex are functions of the ValidHeight here, so that a record rewritten
+	// under the same output id with another ValidHeight differs in them too
 	return &account.UTXO{OutputID: c26hash(f[0]), AssetID: c26asset(f[1]), Amount: f[2], AccountID: c26acct(f[3]),
-		Vote: c26vote(f[4]), ValidHeight: f[5]}
+		Vote: c26vote(f[4]), ValidHeight: f[5], ControlProgramIndex: f[5] + 1, Change: f[5]%2 == 1}
 }
 
 func (s *c26st) dump() string {
@@ -365,7 +367,12 @@ func (s *c26st) exec(line string) {
 				sum += u.Amount
 				m, ok := match[id]
 				_, isRes := before[u.OutputID]
+				if cur, inDB := s.dbSet[id]; ok && inDB && len(cur.ControlProgram) == 0 &&
+					(u.ValidHeight != cur.ValidHeight || u.ControlProgramIndex != cur.ControlProgramIndex || u.Change != cur.Change) {
+					bad = fmt.Sprintf("output %d is handed out with ValidHeight %d / key index %d / change %v, the wallet-DB record currently stored says %d / %d / %v", id, u.ValidHeight, u.ControlProgramIndex, u.Change, cur.ValidHeight, cur.ControlProgramIndex, cur.Change)
+				}
 				switch {
+				case bad != "":
 				case !ok:
 					bad = fmt.Sprintf("output %d is not an output of the requested account/asset/vote", id)
 				case m.ValidHeight > s.height:
@@ -435,7 +442,13 @@ func c26gen(c *Ctx) []string {
 		}
 		switch {
 		case x < 24:
-			lines = append(lines, fmt.Sprintf("putdb %d %d %d %d %d %d %d", id, a.asset, a.amount, a.acct, a.vote, a.vh, a.contract))
+			// the wallet rewrites a record under the same output id after a reorganisation (the output is
+			// re-confirmed at another height, or restored by a detach): same id, another ValidHeight
+			vh := a.vh
+			if r.Intn(3) == 0 {
+				vh = uint64(r.Intn(13))
+			}
+			lines = append(lines, fmt.Sprintf("putdb %d %d %d %d %d %d %d", id, a.asset, a.amount, a.acct, a.vote, vh, a.contract))
 		case x < 40:
 			// the pool copy of an output is computed by txOutToUtxos(tx, 0): it may carry another
 			// ValidHeight than the wallet-DB record of the same output
